@@ -1115,6 +1115,7 @@ func blockLevelPageBreak(siblingBefore, siblingAfter Box) string {
 		{"page", "avoid"}:              true,
 		{"page", "avoid-page"}:         true,
 		{"page", "avoid-column"}:       true,
+		{"page", "column"}:             true,
 		{"column", "auto"}:             true,
 		{"column", "avoid"}:            true,
 		{"column", "avoid-page"}:       true,
